@@ -165,7 +165,7 @@ func (s *vC13Seg) Read(p []byte) (int, error) {
 		}
 		if !s.deadline.IsZero() && time.Now().After(s.deadline) {
 			s.mu.Unlock()
-			return 0, &netError{msg: "vC13Seg: i/o timeout", timeout: true, temporary: true}
+			return 0, vC13TimeoutErr{}
 		}
 		s.mu.Unlock()
 		time.Sleep(200 * time.Microsecond)
